@@ -627,6 +627,35 @@ def key_of(it):
     return (it["file"], it["fn"], tuple(it["flags"]), it["text"])
 
 
+def real_flags(it):
+    return [f for f in it["flags"] if not f.endswith("()")]
+
+
+def keys_of(items):
+    """what is PINNED (C02_gate_inventory): sorted set of (class, file, fn, detail)
+         gate   file fn FLAG    the fn consults FLAG (flag tests, lets bound to a test and their uses collapse:
+                                rewriting the test, reading the flag once into a local, early returns are harmless)
+         carry  file fn ""      the fn / item declares, stores, hands on or constructs an Extensions value without
+                                testing a flag
+         const  file bitflags! TEXT   the definition of the type and of each constant, with its value"""
+    ks = set()
+    for it in items:
+        if it["kind"] == "B":
+            ks.add(("const", it["file"], it["fn"], it["text"]))
+        elif it["kind"] in ("E", "L", "U") and real_flags(it):
+            for f in real_flags(it):
+                ks.add(("gate", it["file"], it["fn"], f))
+        else:
+            ks.add(("carry", it["file"], it["fn"], ""))
+    ks = {k for k in ks if not (k[0] == "carry" and any(g[0] == "gate" and g[1:3] == k[1:3] for g in ks))} | \
+         {k for k in ks if k[0] != "carry"}
+    return sorted(ks)
+
+
+def coq_key(k):
+    return "  (%s, %s, %s, %s)" % tuple(coq_string(x) for x in k)
+
+
 def coq_string(s):
     s = "".join(ch if 32 <= ord(ch) < 127 else "?" for ch in s)
     return '"' + s.replace('"', '""') + '"'
@@ -652,6 +681,13 @@ def render(items):
            "Definition sites : list site := ["]
     out.append(";\n".join(coq_entry(key_of(it)) for it in items))
     out.append("].")
+    out += ["(* what C02_gate_inventory pins: (class, file, fn, detail) - gate: the fn consults the flag [detail];",
+            "   carry: the fn / item declares, stores, hands on or constructs a set without testing a flag; const: the",
+            "   definition of the type and of each constant with its value.  [sites] above is informative detail. *)",
+            "Definition key : Type := (string * string * string * string)%type.",
+            "Definition keys : list key := ["]
+    out.append(";\n".join(coq_key(k) for k in keys_of(items)))
+    out.append("].")
     return "\n".join(out) + "\n"
 
 
@@ -667,36 +703,41 @@ def regenerate():
 
 
 STR = r'"((?:[^"]|"")*)"'
-ENTRY = re.compile(r'\(\s*' + STR + r'\s*,\s*' + STR + r'\s*,\s*\[((?:\s*' + STR.replace("(", "(?:", 1) + r'\s*;?)*)\]\s*,\s*' + STR + r'\s*\)')
+KEY = re.compile(r'\(\s*' + STR + r'\s*,\s*' + STR + r'\s*,\s*' + STR + r'\s*,\s*' + STR + r'\s*\)')
 
 
-def expected_sites():
+def expected_keys():
     """the list in the statement of C02_gate_inventory (the single place where the expectation lives)"""
     src = open(os.path.join(common.COQ, "Properties/C02.v"), encoding="utf-8").read()
-    m = re.search(r"Theorem\s+C02_gate_inventory\s*:\s*GateSites\.sites\s*=\s*\[(.*?)\n\s*\](?:%string)?\s*\.\s*Proof", src, flags=re.S)
+    m = re.search(r"Theorem\s+C02_gate_inventory\s*:\s*GateSites\.keys\s*=\s*\[(.*?)\n\s*\](?:%string)?\s*\.\s*Proof", src, flags=re.S)
     if not m:
         return None
-    out = []
-    for a, b, fl, d in ENTRY.findall(m.group(1)):
-        flags = tuple(x.replace('""', '"') for x in re.findall(STR, fl))
-        out.append((a.replace('""', '"'), b.replace('""', '"'), flags, d.replace('""', '"')))
-    return out
+    return [tuple(x.replace('""', '"') for x in t) for t in KEY.findall(m.group(1))]
 
 
 def diff(items, expected):
-    """(new, gone): entries of the source that the theorem does not list (with their location), and the
-    converse; both lists are sorted, so they are aligned as sequences"""
-    import difflib
-    have = [key_of(it) for it in items]
-    have = [(a, b, c, "".join(ch if 32 <= ord(ch) < 127 else "?" for ch in d)) for a, b, c, d in have]
-    exp = list(expected or [])
+    """(new, gone): keys of the source that the theorem does not list (with the entries behind them and their
+    location), and the converse"""
+    have = keys_of(items)
+    exp = set(expected or [])
     new, gone = [], []
-    for op, i1, i2, j1, j2 in difflib.SequenceMatcher(None, exp, have, autojunk=False).get_opcodes():
-        if op in ("replace", "delete"):
-            gone += ["%s %s [%s]: %s" % (e[0], e[1], ",".join(e[2]), e[3]) for e in exp[i1:i2]]
-        if op in ("replace", "insert"):
-            new += ["src/%s.rs:%d %s [%s]: %s" % (it["file"], it["line"], it["fn"], ",".join(it["flags"]), it["text"])
-                    for it in items[j1:j2]]
+    for k in have:
+        if k in exp:
+            continue
+        if k[0] == "gate":
+            where = ["src/%s.rs:%d %s" % (it["file"], it["line"], it["text"]) for it in items
+                     if it["file"] == k[1] and it["fn"] == k[2] and k[3] in it["flags"]]
+            new.append("fn %s of src/%s.rs consults %s: %s" % (k[2], k[1], k[3], "; ".join(where)))
+        elif k[0] == "carry":
+            where = ["src/%s.rs:%d %s" % (it["file"], it["line"], it["text"]) for it in items
+                     if it["file"] == k[1] and it["fn"] == k[2]]
+            new.append("%s of src/%s.rs touches an Extensions value: %s" % (k[2], k[1], "; ".join(where)))
+        else:
+            new.append("src/%s.rs %s: %s" % (k[1], k[2], k[3]))
+    hs = set(have)
+    for k in sorted(exp - hs):
+        gone.append({"gate": "fn %s of src/%s.rs consults %s", "carry": "%s of src/%s.rs touches an Extensions value%s",
+                     "const": "%s of src/%s.rs: %s"}[k[0]] % ((k[2], k[1], k[3]) if k[0] != "const" else (k[2], k[1], k[3])))
     return new, gone
 
 
@@ -706,7 +747,7 @@ if __name__ == "__main__":
         sys.exit(0)
     if len(sys.argv) > 1 and sys.argv[1] == "--theorem":
         its = scan_tree()
-        sys.stdout.write(";\n".join("  " + coq_entry(key_of(it)).replace("\n", "\n  ") for it in its) + "\n")
+        sys.stdout.write(";\n".join("  " + coq_key(k) for k in keys_of(its)) + "\n")
         sys.exit(0)
     if len(sys.argv) > 1:
         its = scan_tree(sys.argv[1])
